@@ -26,7 +26,8 @@ P = {
     ],
     'coq_header': 'From HV Require Import App.DeterminismModel.\nFrom Coq Require Import ZArith NArith List.\nImport ListNotations.',
     'lists': {'sites': {'type': 'N', 'check': 'site_mismatches', 'shard': 400},
-              'regs': {'type': 'rcase', 'check': 'rmismatches', 'shard': 100}},
+              'regs': {'type': 'rcase', 'check': 'rmismatches', 'shard': 100},
+              'bh': {'type': 'bh_case', 'check': 'bh_mismatches', 'shard': 40}},
     'search': {'rounds': 2, 'n': 40},
     'rule': 'replicas: a case is one block history (quick 15 blocks / 2 replicas, thorough 40 blocks / 3 replicas; every 4th history '
             'adds a replica in a separate OS process) generated as for C15 (really signed Cosmos and Ethereum transactions incl. '
